@@ -303,7 +303,7 @@ def sessions(c, prop, which, tag, sizes):
     exe = vlib.build_cli("asan")
     wd = os.path.join(vlib.BUILD, "cli_" + tag)
     shutil.rmtree(wd, ignore_errors=True)
-    fns = {"sm2sign": lambda d, k: sm2_session(exe, d, sizes, k, "sign"), "sm2enc": lambda d, k: sm2_session(exe, d, sizes, k, "enc"), "sm9": lambda d, k: sm9_session(exe, d, sizes, k), "cms": lambda d, k: cms_session(exe, d, sizes, k), "chain": lambda d, k: chain_session(exe, d, k)}
+    fns = {"sm2sign": lambda d, k: sm2_session(exe, d, sizes, k, "sign"), "sm2enc": lambda d, k: sm2_session(exe, d, sizes, k, "enc"), "sm9": lambda d, k: sm9_session(exe, d, sizes, k), "cms": lambda d, k: cms_session(exe, d, sizes, k), "chain": lambda d, k: chain_session(exe, d, k), "digest": lambda d, k: digest_session(exe, d, sizes, k)}
     jobs = [(w, k) for w in which for k in (1, 2)]
     out = []
     with cf.ThreadPoolExecutor(8) as ex:
@@ -323,10 +323,37 @@ def judge_sessions(c, runs, tag):
     c.cov["traces_validated_against_impl"] = c.cov.get("traces_validated_against_impl", 0) + len(runs)
     for i, j, ev in rej:
         key, evs = runs[i]
-        if ev.get("e") == "CliProduce":
+        if ev.get("e") == "CliDigest":
+            what = "`gmssl %s` (%s) printed %s, the reference construction gives %s (exit status %s)" % (ev.get("tool"), ev.get("what"), str(ev.get("got"))[:70], str(ev.get("expect"))[:70], ev.get("rc"))
+        elif ev.get("e") == "CliProduce":
             what = "`gmssl %s` exited with status %s for %s input (output %d bytes)" % (ev.get("tool"), ev.get("rc"), "admissible" if ev.get("admissible") else "inadmissible", ev.get("outlen", -1))
         else:
             facts = [k for k in ("untouched", "rightkey", "rightid", "rightmsg") if not ev.get(k)]
             what = "`gmssl %s` (%s) exited with status %s although %s%s" % (ev.get("tool"), ev.get("what"), ev.get("rc"), ("everything offered was genuine" if not facts else "not " + ", not ".join(facts)),
                                                                           "" if ev.get("same") else "; the content given back differs from the original")
         c.violation("%s:%s" % (key, ev.get("what", ev.get("tool"))), what, {"event": ev, "events_before": evs[max(0, j - 3):j]})
+
+
+def digest_session(exe, wd, sizes, salt):
+    """sm3 / sm3hmac / sm3_pbkdf2 tools against ref/: files of sizes around the padding and the tools' buffer boundaries"""
+    import sm3ref
+    s = Session(exe, wd)
+    def D(tool, args, what, expect):
+        rc, out, err = s.tool([tool] + args)
+        s.evs.append({"e": "CliDigest", "tool": tool, "what": what, "rc": 0 if rc == 0 else 1, "got": out.decode(errors="replace").strip().lower(), "expect": expect, "stderr": err[-200:]})
+    for n in sizes:
+        m = msg(n, salt); s.write("m", m)
+        D("sm3", ["-in", s.p("m")], "sm3:len%d" % n, sm3ref.sm3(m).hex())
+        for kl in (16, 32):
+            k = msg(kl, salt + 50 + kl)
+            D("sm3hmac", ["-key", k.hex(), "-in", s.p("m")], "sm3hmac:key%d:len%d" % (kl, n), K.hmac(T, "sm3", k, m).hex())
+    D("sm3", ["-in_str", "abc"], "sm3:in_str", sm3ref.sm3(b"abc").hex())
+    def pbkdf2(pw, sl, it, ol):        # (the tool's minimum is 10000 iterations: OpenSSL's SM3 through hashlib where present, else the project's own reference)
+        try:
+            return hashlib.pbkdf2_hmac("sm3", pw, sl, it, ol)
+        except Exception:
+            return K.pbkdf2(T, "sm3", pw, sl, it, ol)
+    for pw, sl, it, ol in (("password", 8, 10000, 32), ("P@ssw0rd", 16, 10001, 16), ("x", 64, 10000, 48), ("a-longer-pass-phrase-than-one-block-of-sm3-which-is-64-bytes-long!!", 8, 10000, 64), ("pw", 9, 10000, 33)):
+        saltb = msg(sl, salt + 90)
+        D("sm3_pbkdf2", ["-pass", pw, "-salt", saltb.hex(), "-iter", str(it), "-outlen", str(ol), "-hex"], "pbkdf2:%s:salt%d:iter%d:out%d" % (pw[:8], sl, it, ol), pbkdf2(pw.encode(), saltb, it, ol).hex())
+    return s
